@@ -11,8 +11,8 @@ META = {
     'text': 'Decides on every path: a request is registered only on the Vacant edge of the id lookup, and everything registration does (timer, abort pair, entry) is on that edge; the channel '
             'yields a request only built from the Ok payload of that registration, a duplicate id has no effect; execution consumes the in-flight request by value and none of '
             'InFlightRequest / TrackedRequest / ResponseGuard is Clone, so one yielded request can be executed at most once; execute sends exactly one response carrying the request\'s own '
-            'id and the handler\'s result; the only writer to the server transport is the channel\'s guarded start_send (C04.tracked) and responses are constructed only by execute and the throttler.',
-    'note': 'Trusted: HashMap entry API; Rust move semantics. The guarded single write per id is C04.tracked; the compile-fail witness for double execution runs in the thorough tier.',
+            'id and the handler\'s result; the only writer to the server transport is the channel\'s guarded start_send (C04.tracked) and responses are constructed only by execute and the throttler; in every activation of the request stream the deadline timers are polled before any response is handed to the transport (C08.order, shared with C06.order; the limiter chains are known finding D5).',
+    'note': 'Trusted: HashMap entry API; Rust move semantics. The guarded single write per id is C04.tracked; the compile-fail witness for double execution runs in the thorough tier. Known finding D5 (with MaxRequests at its limit a buffered response can be written before expiry was processed in that activation).',
 }
 
 
